@@ -335,7 +335,12 @@ impl MlsGroup {
     #[verifier::external_body]
     pub fn epoch(&self) -> (r: GroupEpoch) ensures r.e == self.view().epoch { unimplemented!() }
     #[verifier::external_body]
-    pub fn own_leaf(&self) -> (r: Option<&LeafNode>) ensures (r is Some) == self.view().own_leaf_present, r is Some ==> leaf_identity(*r->Some_0) == own_leaf_identity(self.view()) { unimplemented!() }
+    // `own_leaf_present` = the local member is still a member of the group (OpenMLS group state not Inactive). own_leaf() answers for the
+    // leaf INDEX: a member has its leaf there, but after an eviction the index may hold the leaf of a member the same commit added (F32),
+    // so Some does not imply membership; is_active() does.
+    pub fn own_leaf(&self) -> (r: Option<&LeafNode>) ensures (r is Some) == leaf_at_own_index(self.view()), self.view().own_leaf_present ==> r is Some, r is Some ==> leaf_identity(*r->Some_0) == own_leaf_identity(self.view()) { unimplemented!() }
+    #[verifier::external_body]
+    pub fn is_active(&self) -> (r: bool) ensures r == self.view().own_leaf_present { unimplemented!() }
 
     // merge of a staged (received) commit. Requires, as call-site obligations of mdk:
     //  - a rollback snapshot of exactly this group and epoch was taken in this call (C01)
@@ -369,7 +374,8 @@ impl MlsGroup {
 }
 
 // identity (32-byte basic credential) of the local member's own leaf, None if it has none / is not a member
-pub uninterp spec fn own_leaf_identity(v: MlsView) -> Option<PublicKey>;
+pub uninterp spec fn own_leaf_identity(v: MlsView) -> Option<PublicKey>;   // identity of the leaf AT THE OWN INDEX (the member's own while it is a member)
+pub uninterp spec fn leaf_at_own_index(v: MlsView) -> bool;              // some leaf sits at the own index (true for a member; may stay true after an eviction: F32)
 // ---- members and credentials (assumed OpenMLS API)
 #[verifier::external_body]
 pub struct Credential { _p: u8 }
